@@ -56,6 +56,8 @@ inductive Check
   | masterUnset                 -- `if self.supvisors.state_modes.master_identifier: raise` (end_sync)
   | userOption                  -- `if SynchronizationOptions.USER not in ...synchro_options: raise`
   | jobsIdle                    -- `if ...starting_identifiers or ...stopping_identifiers: raise` (restart_sequence)
+  | masterKnown                 -- `try: fsm.on_restart() except RuntimeError: raise`: the local instance is the Master
+                                --   or knows one (restart / shutdown are performed by or re-routed to the Master)
   | strategy                    -- `_get_starting_strategy` / `_get_conciliation_strategy`
   | appName                     -- `_get_application`
   | namespec                    -- `_get_application_process`
@@ -73,7 +75,7 @@ def Check.isState : Check → Bool
 
 /-- checks on the Supvisors state and modes (not on the parameters) -/
 def Check.isStateLike : Check → Bool
-  | .state _ | .masterUnset | .userOption | .jobsIdle => true
+  | .state _ | .masterUnset | .userOption | .jobsIdle | .masterKnown => true
   | _ => false
 
 /-- the parameter classes of the statement: strategy, application / process / program name, instance name,
@@ -145,6 +147,7 @@ def checkPasses (s : State) (a : Args) : Check → Fault → Bool
   | .masterUnset, _ => !s.masterSet
   | .userOption, _ => s.userOpt
   | .jobsIdle, _ => !s.jobs
+  | .masterKnown, _ => s.isMaster || s.masterSet
   | .strategy, _ => a.stratOk
   | .appName, _ | .namespec, _ | .progName, _ => a.nameOk
   | .instName, _ => a.instOk
